@@ -13,7 +13,8 @@ PROPERTY = "C13"
 RULES = {
     "R1": "no mutable sub-object is shared: every value that flows from a field of an original object into a "
     "constructor argument or attribute of a clone passes through a copying operation when the field's declared class "
-    "is mutable (tensors and attribute objects exempt by the statement)",
+    "is mutable (tensors and attribute objects exempt by the statement)"
+    " ; copy.copy counts only for classes without mutable sub-objects, and package copy() methods the cloner relies on must copy the receiver's mutable containers",
     "R2": "field coverage: every attribute the serializer reads from Value/Node/Graph/Function/Model is transferred by "
     "the cloner",
     "R3": "outer-scope guard: passing an unmapped original value into a clone node is dominated by the "
